@@ -19,7 +19,8 @@ inductive Tok where
   | bcomp | acomp              -- before/afterCompletion
   | issue
   | ret (r : String)           -- result of step()
-  | raw (s : String)           -- harness-level tokens: cfg:…, DIVERGE, cancel, reset, destroyed, state:…
+  | note (s : String)          -- harness-level remarks without nesting content: cfg:…, DIVERGE, cancel, reset, destroyed, state:…
+  | raw (s : String)           -- anything else read from a trace of the compiled interpreter (bi:/ai:/bu:/au: …)
   deriving Repr, DecidableEq, Inhabited
 
 def Tok.toString : Tok → String
@@ -32,6 +33,7 @@ def Tok.toString : Tok → String
   | .log l => s!"log:{l}"
   | .st => "st" | .bcomp => "bcomp" | .acomp => "acomp" | .issue => "issue"
   | .ret r => s!"ret:{r}"
+  | .note s => s
   | .raw s => s
 
 instance : ToString Tok := ⟨Tok.toString⟩
